@@ -79,7 +79,8 @@ def cases(tier, seed):
         yield {"d": "RMB", "n": n, "sp": "hex"}
     # no-byte directives
     for txt in ("ZQ EQU 5", "ZQ EQU $1234", " ORG $3003", " SETDP 0", " SETDP $30", " NAM PROG", " NAM prog12345", " END", " END LB",
-                " END $3000", "ZQ EQU -1", " END LB+2", " END 2+LB", " END LB-1", " END EQ5+1", "ZQ EQU LB", " SETDP EQ5", " NAM LB"):
+                " END $3000", "ZQ EQU -1", " END LB+2", " END 2+LB", " END LB-1", " END EQ5+1", "ZQ EQU LB", " SETDP EQ5", " NAM LB",
+                " SETDP LB", " SETDP ZZ9", " SETDP LB+1", "ZQ EQU ZZ9", "ZQ EQU ZZ9+1", " NAM ZZ9", " END ZZ9", " SETDP EQ5+1"):
         yield {"d": "NONE", "line": txt}
     yield {"d": "INCLUDE"}
 
